@@ -291,6 +291,8 @@ def run_unit(unit):
             break
         if len(res["samples"]) < 1:
             res["samples"].append({"part": part, "cfg": brief(cfg), "history": hs[min(len(hs) - 1, 5)]})
+    res["stats"]["undecidable_reference_comparisons"] = seq.UNDECIDED[0]
+    seq.UNDECIDED[0] = 0
     res["states"] = list(res["states"])
     res["outcomes"] = list(res["outcomes"])
     return res
